@@ -74,6 +74,17 @@ def run_one(sh, case, driver='generated'):
     res = None
     events = []
     api = case.get('api', 'func')
+    # the optional tqdm package is not installed here: half of the progress runs get a minimal stand-in on sys.path so
+    # that the progress-bar branch itself (not only its ImportError fallback) is exercised
+    import sys
+    fake = os.path.join(os.path.dirname(os.path.dirname(os.path.abspath(__file__))), 'fake_tqdm')
+    use_fake = bool(case.get('fake_tqdm')) and case['progress'] is not None
+    if use_fake:
+        sys.path.insert(0, fake)
+        sh.note('progress_bar_branch_with_tqdm_stand_in')
+    else:
+        for m in [m for m in sys.modules if m == 'tqdm' or m.startswith('tqdm.')]:
+            del sys.modules[m]
     with poollog.Session(os.environ.get('BCVERIF_WORK', '/tmp'), delays) as ses:
         try:
             with quiet():
@@ -95,6 +106,10 @@ def run_one(sh, case, driver='generated'):
         except Exception as e:
             vs.append({'mechanism': attach.exc_mechanism(e), 'message': 'group call raised %r' % (e,)})
         events = ses.events()
+    if use_fake:
+        sys.path.remove(fake)
+        for m in [m for m in sys.modules if m == 'tqdm' or m.startswith('tqdm.')]:
+            del sys.modules[m]
     if res is not None:
         if len(res) != n:
             vs.append({'mechanism': 'result-length', 'message': '%d tables for %d rows' % (len(res), n)})
@@ -174,7 +189,7 @@ def make_case(rng, n, order=None, n_jobs=None, api='func'):
         n_jobs = int(rng.choice([1, 2, 3, n, n + 3, -1]))
     return dict(sigs=sigs, fs=fs, f_range=(lo, hi), kwargs=kw, return_samples=bool(rng.random() < 0.7),
                 n_jobs=n_jobs, progress=[None, None, 'tqdm', 'tqdm.notebook'][int(rng.integers(0, 4))],
-                delays=delays, api=api)
+                delays=delays, api=api, fake_tqdm=bool(rng.random() < 0.5))
 
 
 def run(sh):
